@@ -439,6 +439,7 @@ def stamp_static():
     p['name'] = 'stamp_static'
     p['doedits'] = ['mid.do']
     p['bounds'] = (7, 3)
+    p['fixed_bounds'] = True        # (already the deepest history of the family)
     return p
 
 
@@ -928,7 +929,9 @@ def pair_family():
            'pairs': [((I, ['top'], False), ('ood', [], False)), ((I, ['top'], False), ('targets', [], False)),
                      ((I, ['top'], False), ('sources', [], False))],
            'user': ['s'], 'rm': [], 'doedits': [], 'bounds': (3, 4), 'repeat': 2}
-    return [complete(dict(p, no_viewer=True)) for p in [chain, stampp, dia, fail, lockfail, alw, qry]]
+    # (two process trees interleave: one more history step multiplies the state space by hundreds; the thorough tier takes
+    # all programs, every history and more real runs per history instead of longer histories)
+    return [complete(dict(p, no_viewer=True, fixed_bounds=True)) for p in [chain, stampp, dia, fail, lockfail, alw, qry]]
 
 
 # dependency cycles ---------------------------------------------------------------------------
